@@ -125,7 +125,13 @@ pub fn gen_algo_case(rng: &mut Rng, thorough: bool) -> J {
             "probs": [f64_model(r.crossover_prob), f64_model(r.selection_pressure), f64_model(r.mutation_prob)],
         }));
     }
-    let mut line = json!({"mode": "ops", "inRun": true, "spec": enc_spec(&spec.0), "sampleSize": sample_size, "nRecords": recs.len(), "ops": ops,
+    // the adaptive parameters of EVERY record (not only the sampled ones): probabilities in [0,1], scale positive and finite
+    let bad_meta = recs.iter().enumerate().find(|(_, r)| {
+        let pr = |p: f64| p >= 0.0 && p <= 1.0;
+        !(pr(r.crossover_prob) && pr(r.selection_pressure) && pr(r.mutation_prob) && r.mutation_scale.is_finite() && r.mutation_scale > 0.0)
+    }).map(|(i, r)| json!({"index": i, "source": r.source, "crossoverProb": format!("{:e}", r.crossover_prob), "selectionPressure": format!("{:e}", r.selection_pressure),
+                           "mutationProb": format!("{:e}", r.mutation_prob), "mutationScale": format!("{:e}", r.mutation_scale)}));
+    let mut line = json!({"mode": "ops", "inRun": true, "spec": enc_spec(&spec.0), "sampleSize": sample_size, "nRecords": recs.len(), "ops": ops, "badMeta": bad_meta,
                           "init": enc_value(&guess.unwrap_or_else(|| spec.initial_value()).0)});
     if let Err(e) = res { line["runPanic"] = json!(panic_msg(e)); }
     line
